@@ -515,6 +515,10 @@ func Generate(repo, dir string) (string, *Report, error) {
 					if id, ok := sel.X.(*ast.Ident); ok && id.Name == "atomic" {
 						found = true
 					}
+					// a polling loop gives the processor away here: so does the task
+					if id, ok := sel.X.(*ast.Ident); ok && ((id.Name == "runtime" && sel.Sel.Name == "Gosched") || (id.Name == "time" && sel.Sel.Name == "Sleep")) {
+						found = true
+					}
 				}
 				return true
 			})
@@ -665,6 +669,24 @@ func Generate(repo, dir string) (string, *Report, error) {
 						if cc, ok := c.(*ast.CommClause); ok && cc.Comm == nil {
 							hasDefault = true
 						}
+					}
+					if hasDefault && len(x.Body.List) > 1 {
+						// a poll: a yield point, unless it is one of the polls the
+						// select pre-pass generated (its first clause sets __sdN)
+						generated := false
+						if cc, ok := x.Body.List[0].(*ast.CommClause); ok && len(cc.Body) > 0 {
+							if as, ok := cc.Body[0].(*ast.AssignStmt); ok && len(as.Lhs) == 1 {
+								if id, ok := as.Lhs[0].(*ast.Ident); ok && strings.HasPrefix(id.Name, "__sd") {
+									generated = true
+								}
+							}
+						}
+						if !generated {
+							point := fmt.Sprintf("poll:%s:%d", rel, pos.Line)
+							edits = append(edits, edit{pos.Offset, fmt.Sprintf("verifhook.Y(%q); ", point)})
+							rep.SyncSites = append(rep.SyncSites, point)
+						}
+						continue
 					}
 					if !hasDefault && len(x.Body.List) > 0 {
 						point := fmt.Sprintf("block:%s:%d", rel, pos.Line)
